@@ -80,7 +80,12 @@ BoundOK(st, b, which, cm, sg, prec, tqe) ==
         aE   == DyAbs(E)
         base == DyMul(U8(prec), DyAdd(st.sabs, DyMulInt(DyAbs(b), st.n)))          \* n * 8u (Sabs/n + |b|)
     IN IF DySign(st.v) = 0
-       THEN DyLe(aE, base)                                      \* constant sample: degenerate interval
+       THEN \* constant sample: the degenerate interval, up to the rounding error of the computed
+            \* variance (the V > 0 branch below admits V^ = V +- 8u n S2; this is its limit V = 0:
+            \* E^2 (n-1) <= c^2 8u n S2).  Exactly squarable data (S2 error-free) still give E ~ 0
+            \* in the crate; the allowance is what the property's conditioning clause grants.
+            LET lowr == IF DyLe(aE, base) THEN DyZero ELSE DySub(aE, base) IN
+            DyLe(DyMulInt(DySq(lowr), st.n - 1), DyMul(DySq(cm[2]), DyMul(U8(prec), DyMulInt(st.s2, st.n))))
        ELSE LET V    == st.v
                 tolV == DyAdd(DyMul(base, V),
                               DyMul(aE, DyAdd(DyMul(U8(prec), DyMulInt(st.s2, st.n)),
